@@ -49,6 +49,8 @@ pub enum Cmd {
     Loop { until: bool, id: u32, count: u32, body: Box<Cmd> },
     For { id: u32, words: Vec<&'static str>, body: Box<Cmd> },
     /// `terms[i]`: terminator of item i: 0 `;;`, 1 `;&` (run the next body untested), 2 `;|` / 3 `;;&` (go on testing)
+    /// `: ${var=val}` : assigns if the variable is unset (to the visible variable, else globally)
+    AssignSwitch { var: &'static str, val: String, colon: bool },
     Case { word: &'static str, items: Vec<(Vec<&'static str>, Cmd)>, terms: Vec<u8> },
     FuncDef(u32, Box<Cmd>),
     Call(u32),
@@ -283,6 +285,14 @@ impl Sh {
             }
             Cmd::Assign { var, val } => {
                 self.set(var, val.clone());
+                self.status = 0;
+                Flow::Normal
+            }
+            Cmd::AssignSwitch { var, val, .. } => {
+                // (generated values are never empty, so `=` and `:=` agree)
+                if self.get(var).and_then(|v| v.val.as_ref()).is_none() {
+                    self.set(var, val.clone());
+                }
                 self.status = 0;
                 Flow::Normal
             }
@@ -718,13 +728,20 @@ impl Sh {
             }
             Cmd::Local { var, val } => {
                 if self.func_depth > 0 {
-                    self.scopes.last_mut().unwrap().insert(
-                        var.to_string(),
-                        Var {
-                            val: Some(val.clone()),
-                            exported: false,
-                        },
-                    );
+                    // an existing local of this function is updated and keeps its attributes
+                    let scope = self.scopes.last_mut().unwrap();
+                    match scope.get_mut(*var) {
+                        Some(x) => x.val = Some(val.clone()),
+                        None => {
+                            scope.insert(
+                                var.to_string(),
+                                Var {
+                                    val: Some(val.clone()),
+                                    exported: false,
+                                },
+                            );
+                        }
+                    }
                 } else {
                     self.set(var, val.clone());
                 }
@@ -918,6 +935,7 @@ impl Render<'_> {
             Cmd::ProbeVar { id, var } => format!("pvar k{id} {var}"),
             Cmd::ProbePos { id } => format!("probe k{id} \"$#\" \"${{1-}}\""),
             Cmd::Assign { var, val } => format!("{var}={val}"),
+            Cmd::AssignSwitch { var, val, colon } => format!(": ${{{var}{}={val}}}", if *colon { ":" } else { "" }),
             Cmd::True => "true".into(),
             Cmd::False => "false".into(),
             Cmd::Colon => ":".into(),
@@ -1187,7 +1205,18 @@ impl<'a> Gen<'a> {
             let val = format!("{}{}", var, id);
             return match self.rng.below(13) {
                 12 => Cmd::ProbeVar { id, var: "t" },
-                0 | 1 => Cmd::Assign { var, val },
+                0 => Cmd::Assign { var, val },
+                1 => {
+                    if self.rng.chance(50) {
+                        Cmd::Assign { var, val }
+                    } else {
+                        Cmd::AssignSwitch {
+                            var,
+                            val,
+                            colon: self.rng.chance(50),
+                        }
+                    }
+                }
                 2 | 3 => Cmd::ProbeVar { id, var },
                 4 => Cmd::Temp {
                     var,
